@@ -187,6 +187,26 @@ CHECKS += [
      "note": _SCHED_NOTE + " File identity = (path, size, mtime); rewrites change both."},
 ]
 
+CHECKS += [
+    {"id": "C12", "engine": "progs", "level": "model_checking",
+     "technique": "exhaustive enumeration of failing programs, each executed twice on one backend under a controlled event loop (default schedule + bounded deviations)",
+     "text": "Every generated program of size <=4 that can fail is executed twice on one backend; the outcome must be admissible, the root job and the "
+     "failing job with all its ancestors must be recorded with an ErrorValue result, and the failing task function must run again in the second execution.",
+     "note": _SCHED_NOTE},
+    {"id": "C20", "engine": "progs", "level": "model_checking",
+     "technique": "exhaustive enumeration of programs executed (twice) under a controlled event loop, whole-database Merkle / job-tree / value-key oracle",
+     "text": "Every generated program of size <=4 (+ sharp shapes) is run twice on one backend; over all rows: call hashes equal the Merkle hash of task, "
+     "args, result and recorded children; recorded children equal the finished child jobs' nodes; job tree and execution roots mirror the jobs "
+     "the scheduler created; every value deserializes to a value hashing to its key.",
+     "note": _SCHED_NOTE + " Tag placement is not yet part of the oracle."},
+    {"id": "C21", "engine": "progs", "level": "model_checking",
+     "technique": "exhaustive enumeration of programs under a controlled event loop, per-argument upstream-link oracle derived from the program AST",
+     "text": "For every evaluated task call site of every succeeding generated program: one Argument row per parameter with the value the task "
+     "received (defaults by key), and required <= recorded <= allowed upstream call nodes, derived from the AST through task calls, lazy "
+     "operators, getitem, nout, containers and cond.",
+     "note": _SCHED_NOTE + " Call nodes used by more than one job and arguments built from catch/map_/apply_func are only checked for row presence and value."},
+]
+
 _ALL = [f"C{i:02d}" for i in range(1, 39)]
 _claimed = {c["id"] for c in CHECKS}
 _REASONS = {}
